@@ -348,6 +348,17 @@ func rsaKeyFromPool(r *hx.Rng, t *tinkpb.KeyTemplate, id uint32) (*protoserializ
 		return nil, false
 	}
 	pr := hx.PickS(r, cands)
+	if r.Chance(30) { // primes of different byte lengths: |dp| = |crt| = |p| <> |q| = |dq|
+		var unb []rsaPrimes
+		for _, k := range cands {
+			if strings.HasPrefix(k.tag, "unbalanced") {
+				unb = append(unb, k)
+			}
+		}
+		if len(unb) > 0 {
+			pr = hx.PickS(r, unb)
+		}
+	}
 	p, q := bi(pr.p), bi(pr.q)
 	one := big.NewInt(1)
 	n := new(big.Int).Mul(p, q)
